@@ -834,24 +834,46 @@ class Model(Object):
                 reverse = reaction.reverse_variable
 
                 if context:
-                    obj_coef = reaction.objective_coefficient
-
-                    if obj_coef != 0:
-                        # Look up the objective and the (re-created) variables
-                        # when undoing: both may have been replaced meanwhile.
-                        def restore_objective_coefficient(
-                            forward_id=reaction.id,
-                            reverse_id=reaction.reverse_id,
-                            coefficient=obj_coef,
-                        ) -> None:
-                            self.solver.objective.set_linear_coefficients(
-                                {
-                                    self.variables[forward_id]: coefficient,
-                                    self.variables[reverse_id]: -coefficient,
-                                }
+                    # Bringing the reaction back re-creates its variables with
+                    # their terms in the mass balances only. Remember the terms
+                    # in the objective and in all other constraints and look up
+                    # the (re-created) objects when undoing.
+                    terms = {}
+                    if self.solver.objective.is_Linear:
+                        terms[None] = self.solver.objective.get_linear_coefficients(
+                            [forward, reverse]
+                        )
+                    for constraint in self.constraints:
+                        if (
+                            not self.metabolites.has_id(constraint.name)
+                            and constraint.is_Linear
+                        ):
+                            terms[constraint.name] = (
+                                constraint.get_linear_coefficients([forward, reverse])
                             )
 
-                        context(restore_objective_coefficient)
+                    def restore_terms(
+                        forward_id=reaction.id,
+                        reverse_id=reaction.reverse_id,
+                        terms={
+                            name: (coefs[forward], coefs[reverse])
+                            for name, coefs in terms.items()
+                            if any(coefs.values())
+                        },
+                    ) -> None:
+                        variables = (
+                            self.variables[forward_id],
+                            self.variables[reverse_id],
+                        )
+                        for name, coefs in terms.items():
+                            owner = (
+                                self.solver.objective
+                                if name is None
+                                else self.constraints[name]
+                            )
+                            owner.set_linear_coefficients(dict(zip(variables, coefs)))
+
+                    context(restore_terms)
 
                     context(partial(self._populate_solver, [reaction]))
                     context(partial(setattr, reaction, "_model", self))
